@@ -106,7 +106,7 @@ def gen_c15_kd(rnd, tier):
                     continue
                 nn = min(2000, n + (n // 2 if part else 0))      # the partial tree itself has about n points
                 pts = _general_position(rnd, nn, dim, 2000)
-                r = _kd(rnd, pts, dim, part, 6 if quick else 10, rnd.choice((0, 4, -3)), 'general')
+                r = _kd(rnd, pts, dim, part, 6 if quick else 10, rnd.choice((0, 4, -3, -20)), 'general')
                 if part:
                     r['sub'] = rnd.sample(range(nn), n)
                     r['ks'] = sorted(set([1, 2, 3, 7, 33, n, n + 1]))
@@ -116,7 +116,7 @@ def gen_c15_kd(rnd, tier):
         dim = rnd.choice((2, 3))
         n = rnd.randint(5, 32)
         pts = _gridded(rnd, n, dim, rnd.randint(2, 6))
-        out.append(_kd(rnd, pts, dim, rnd.random() < 0.4, 8, rnd.choice((0, 4, -3)), 'gridded_small'))
+        out.append(_kd(rnd, pts, dim, rnd.random() < 0.4, 8, rnd.choice((0, 4, -3, -20)), 'gridded_small'))
     # clustered general position
     for _ in range(2 if quick else 12):
         dim = rnd.choice((2, 3))
@@ -153,14 +153,14 @@ def gen_c15_poisson(rnd, tier):
         span = 1000
         base = max(2, int(2 * span / max(1.0, m ** (1.0 / dim))))
         out.append({'m': 'spatial', 'op': 'poisson', 'dim': dim, 'pts': pts, 'order': order,
-                    'rs': [base, 2 * base + 1, 4 * base], 'sc': rnd.choice((0, 4, -3)), 'cls': 'general'})
+                    'rs': [base, 2 * base + 1, 4 * base], 'sc': rnd.choice((0, 4, -3, -20)), 'cls': 'general'})
     for _ in range(20 if quick else 300):
         dim = rnd.choice((2, 3))
         n = rnd.randint(4, 32)
         pts = _gridded(rnd, n, dim, rnd.randint(2, 5))
         m = rnd.randint(1, n)
         out.append({'m': 'spatial', 'op': 'poisson', 'dim': dim, 'pts': pts, 'order': rnd.sample(range(n), m),
-                    'rs': [1, 2, 3, 4, 6], 'sc': rnd.choice((0, 4, -3)), 'cls': 'gridded_small'})
+                    'rs': [1, 2, 3, 4, 6], 'sc': rnd.choice((0, 4, -3, -20)), 'cls': 'gridded_small'})
     # gridded with more than one bucket: consequence of F20 (KNOWN-FINDING when it strikes)
     for n in ([64] if quick else [40, 64, 128, 200]):
         dim = rnd.choice((2, 3))
@@ -238,7 +238,7 @@ def gen_c15_hull(rnd, tier):
         pts = [[rnd.randint(0, g), rnd.randint(0, g), 0] for _ in range(n)]
         if all(_cross(pts[0], pts[1], p) == 0 for p in pts):
             continue
-        out.append({'m': 'spatial', 'op': 'hull', 'pts': pts, 'simple': False, 'fc': True, 'sc': rnd.choice((0, 4, -3))})
+        out.append({'m': 'spatial', 'op': 'hull', 'pts': pts, 'simple': False, 'fc': True, 'sc': rnd.choice((0, 4, -3, -20))})
     for _ in range(30 if quick else 400):
         v = _star_polygon(rnd, rnd.randint(4, 24 if quick else 60), rnd.randint(6, 40))
         if not _simple(v):
@@ -247,7 +247,7 @@ def gen_c15_hull(rnd, tier):
             v = v[::-1]
         k = rnd.randrange(len(v))
         v = v[k:] + v[:k]
-        out.append({'m': 'spatial', 'op': 'hull', 'pts': v, 'simple': True, 'fc': True, 'sc': rnd.choice((0, 4, -3))})
+        out.append({'m': 'spatial', 'op': 'hull', 'pts': v, 'simple': True, 'fc': True, 'sc': rnd.choice((0, 4, -3, -20))})
     return out
 
 
@@ -281,7 +281,7 @@ def gen_c15_pivot(rnd, tier):
             start = {'kind': kind, 'i': i, 'v': [k * v[0], k * v[1]]}
         end = {'kind': 'repeat', 'i': 0} if rnd.random() < 0.7 else {'kind': 'index', 'i': rnd.randrange(len(pts))}
         out.append({'m': 'spatial', 'op': 'pivot', 'pts': pts, 'start': start, 'end': end, 'dir': rnd.choice((-1, 1)),
-                    'rh': rh, 'gh': rnd.choice((1, 2)), 'sc': rnd.choice((0, 4, -3))})
+                    'rh': rh, 'gh': rnd.choice((1, 2)), 'sc': rnd.choice((0, 4, -3, -20))})
     # more than one bucket of lattice points: consequence of F20 (KNOWN-FINDING when it strikes)
     for g in ([7] if quick else [6, 7, 8, 9]):
         pts = [[x, y, 0] for x in range(g + 1) for y in range(g + 1) if rnd.random() < 0.8]
@@ -302,7 +302,7 @@ def gen_c15_mesh(rnd, tier):
             if abs(det) >= 20 and all(all(x != 0 for x in d) for d in e):
                 break
         faces = [[0, 2, 1], [0, 1, 3], [1, 2, 3], [0, 3, 2]] if det > 0 else [[0, 1, 2], [0, 3, 1], [1, 3, 2], [0, 2, 3]]
-        base = {'m': 'spatial', 'op': 'msample', 'name': 'random_tet', 'vpos': v, 'faces': faces, 'rep': 1, 'sc': rnd.choice((0, 4, -3))}
+        base = {'m': 'spatial', 'op': 'msample', 'name': 'random_tet', 'vpos': v, 'faces': faces, 'rep': 1, 'sc': rnd.choice((0, 4, -3, -20))}
         out.append(dict(base, kind='uniform', n=800, h=0))
         out.append(dict(base, kind='dense', n=0, h=rnd.choice((1, 2, 3))))
         out.append(dict(base, kind='poisson', n=0, h=rnd.choice((2, 3, 4))))
